@@ -288,3 +288,5 @@ End Activate.
 (* ---- the instance that is extracted ---- *)
 Definition run_activate (e : env) (m : smeta) (coins_stream : list N) : ares := activate secp_decompress sha256d e m coins_stream.
 Definition run_utxo_hash (s : list ucoin) : list N := utxo_hash sha256d s.
+Definition run_maybe_validate (table : list au_entry) (ready : bool) (height : Z) (coins : list ucoin) : completion :=
+  maybe_validate sha256d table (mk_bg ready height (coin_set coins)).
